@@ -147,7 +147,72 @@ def replay_parallel(ctx, exe, env, cases, chunks):
     return outs, crashes
 
 
+def finish_replay(ctx):
+    """--replay: report what was reproduced; the evidence file is not touched"""
+    import shutil
+    for (sig, what, path) in ctx.mismatches:
+        print("VIOLATION property=%s replay=%s sig=%s :: %s" % (ctx.pid, ctx.replay, sig, " | ".join(what.splitlines())[:900]))
+    if not ctx.mismatches:
+        print("REPLAY-OK property=%s replay=%s: the implementation now conforms on this artefact" % (ctx.pid, ctx.replay))
+    shutil.rmtree(ctx.tmp, ignore_errors=True)
+    return 1 if ctx.mismatches else 0
+
+
+def compare_behaviour(ctx, b, case, o, is_pushref):
+    """one behaviour: every read of every step against the spec's observation; returns reads checked"""
+    if o is None:
+        return 0
+    art = [dict(case, spec=b, pushref=is_pushref)]
+    reads = 0
+    for j, s in enumerate(b):
+        ob = o["obs"][j]
+        if "err" in ob:
+            ctx.mismatch("exception:%s" % s["a"], "unexpected exception in %s: %s" % (to_step(s), ob["err"]), art)
+            break
+        exp = [e for e in s["obs"] if e["tag"] != "dead"]
+        if len(exp) != len(ob["reads"]):
+            raise Broken("replayer returned %d reads for %d requested" % (len(ob["reads"]), len(exp)))
+        rctx = PushRefCtx(ctx) if is_pushref else ctx
+        for e, g in zip(exp, ob["reads"]):
+            check_read(rctx, e, g, s, art[0])
+            reads += 1
+        if s["a"] == "construct" and ob.get("amb") != "ok":
+            ctx.mismatch("construct:ambiguous:%s" % ob.get("amb"), "occa%s() differs from the sized constructor for %s" % (ob.get("amb"), s["x"]), art)
+        if s["a"] == "echo":
+            check_echo(ctx, s["k"], ob["echo"], art[0])
+    return reads
+
+
+def crash_sig(c, case):
+    st = case["steps"][c["step"]] if 0 <= c["step"] < len(case["steps"]) else {"a": "end-of-behaviour"}
+    log = c.get("log", "")
+    where = "occaKernelHash" if ("occaKernelHash" in log or "occaKernelFullHash" in log) and "strlen" in log else st["a"]
+    sig = "crash:%s:%s" % (c["crash"], where)
+    if "heap-use-after-free" in log and st["a"] == "apush" and "_M_realloc_insert" in log:
+        sig = "handle:array-element-ref:use-after-free-after-ArrayPush"
+    return sig, "replayer died at step %s (%s): %s" % (c["step"], st, log[-1800:])
+
+
+def replay(ctx):
+    recs = [json.loads(l) for l in open(ctx.replay) if l.strip()]
+    if not all("spec" in r for r in recs):
+        raise Broken("the artefact carries no predictions (written by an older version of the check)")
+    cases = [{"steps": r["steps"]} for r in recs]
+    exe, lib = ctx.build_harness("capi_replay", ["capi_replay.cpp"], internal=False, variant=os.environ.get("VERIF_VARIANT", "asan"))
+    env = ctx.occa_env(lib)
+    env["UBSAN_OPTIONS"] = "print_stacktrace=0:halt_on_error=0"
+    outs, crashes = run_replayer(ctx, exe, env, cases, timeout=900)
+    for c in crashes:
+        sig, what = crash_sig(c, cases[c["beh"]])
+        ctx.mismatch(sig, what)
+    for i, r in enumerate(recs):
+        compare_behaviour(ctx, r["spec"], cases[i], outs.get(i), r.get("pushref", False))
+    return finish_replay(ctx)
+
+
 def run(ctx):
+    if ctx.replay:
+        return replay(ctx)
     t0 = time.time()
     # 1. design run: all actions, tiny values, history hidden; invariants + vacuity
     r = ctx.tlc("mc/MC_CApi.tla", "mc/CApi_design.cfg" if ctx.tier == "thorough" else "mc/CApi_design5.cfg", workers=min(WORKERS, 4), coverage=True, deadlock=False, timeout=2400)
@@ -155,7 +220,7 @@ def run(ctx):
     ctx.require_coverage(r, ["Create", "ObjSet", "ObjGet", "ArrPush", "ArrGet", "ArrChange", "Free", "FreeAgain"])
     # 2. behaviours: all scalars (script shaped), all short histories, random long histories
     gens = [("mc/CApi_scalars.cfg", None), ("mc/CApi_pushref.cfg", None), ("mc/CApi_gen.cfg", None), ("mc/CApi_sim.cfg", 300 if ctx.tier == "thorough" else 40)]
-    behaviours, counts = [], {}
+    behaviours, counts, pushref_keys = [], {}, set()
     for cfg, sim in gens:
         w = min(WORKERS, 4)
         g = ctx.tlc("mc/MC_CApi.tla", cfg, workers=(w if sim else 2), simulate=(max(1, sim // w) if sim else None),
@@ -184,35 +249,12 @@ def run(ctx):
     env["UBSAN_OPTIONS"] = "print_stacktrace=0:halt_on_error=0"
     outs, crashes = replay_parallel(ctx, exe, env, cases, FANOUT)
     for c in crashes:
-        b = cases[c["beh"]]
-        st = b["steps"][c["step"]] if 0 <= c["step"] < len(b["steps"]) else {"a": "end-of-behaviour"}
-        log = c.get("log", "")
-        where = "occaKernelHash" if ("occaKernelHash" in log or "occaKernelFullHash" in log) and "strlen" in log else st["a"]
-        sig = "crash:%s:%s" % (c["crash"], where)
-        if "heap-use-after-free" in log and st["a"] == "apush" and "_M_realloc_insert" in log:
-            sig = "handle:array-element-ref:use-after-free-after-ArrayPush"
-        ctx.mismatch(sig, "replayer died at step %s (%s): %s" % (c["step"], st, log[-1800:]), [b])
+        sig, what = crash_sig(c, cases[c["beh"]])
+        ctx.mismatch(sig, what, [dict(cases[c["beh"]], spec=behaviours[c["beh"]],
+                                      pushref=json.dumps(cases[c["beh"]]["steps"], sort_keys=True) in pushref_keys)])
     reads = 0
     for i, b in enumerate(behaviours):
-        o = outs.get(i)
-        if o is None:
-            continue
-        for j, s in enumerate(b):
-            ob = o["obs"][j]
-            if "err" in ob:
-                ctx.mismatch("exception:%s" % s["a"], "unexpected exception in %s: %s" % (to_step(s), ob["err"]), [cases[i]])
-                break
-            exp = [e for e in s["obs"] if e["tag"] != "dead"]
-            if len(exp) != len(ob["reads"]):
-                raise Broken("replayer returned %d reads for %d requested" % (len(ob["reads"]), len(exp)))
-            rctx = PushRefCtx(ctx) if json.dumps(cases[i]["steps"], sort_keys=True) in pushref_keys else ctx
-            for e, g in zip(exp, ob["reads"]):
-                check_read(rctx, e, g, s, cases[i])
-                reads += 1
-            if s["a"] == "construct" and ob.get("amb") != "ok":
-                ctx.mismatch("construct:ambiguous:%s" % ob.get("amb"), "occa%s() differs from the sized constructor for %s" % (ob.get("amb"), s["x"]), [cases[i]])
-            if s["a"] == "echo":
-                check_echo(ctx, s["k"], ob["echo"], cases[i])
+        reads += compare_behaviour(ctx, b, cases[i], outs.get(i), json.dumps(cases[i]["steps"], sort_keys=True) in pushref_keys)
     t2 = time.time()
     ctx.notes.append("phase wall seconds: TLC %.0f, build+replay+compare %.0f" % (t1 - t0, t2 - t1))
     ctx.traces_validated = len(outs)
